@@ -75,6 +75,10 @@ def run(tier, seed):
             s.roots_mode = ("rp", "none", "several")[i % 3] if fmt in ("packed", "fido-u2f", "tpm") else (("rp", "extra-unrelated", "rp-only")[i % 3] if fmt in regsim.X5C_FORMATS else "rp")
             if fmt == "tpm":
                 s.k["tpm_name_alg"] = ("SHA256", "SHA1", "SHA384", "SHA512")[i % 4]
+            if fmt in regsim.X5C_FORMATS and i % 7 == 3:
+                s.k["leaf_issuer_respelled"] = True          # the leaf names its issuer in another spelling of the same distinguished name (case, blanks, string type)
+            if fmt in regsim.X5C_FORMATS and i % 7 == 5:
+                s.k["pki_kw"] = dict(s.k.get("pki_kw", {}), root_v1=True)          # the root is an X.509 v1 certificate
             if fmt in regsim.X5C_FORMATS and i % 5 in (2, 4):
                 # certificates signed over another digest than SHA-256 (attestation CAs of 2014-2016 signed over SHA-1): the default verification parameters accept them
                 s.k["chain_sig_hash"] = ("sha1", "sha384", "sha512", "sha1", "sha224")[(i // 5) % 5]
